@@ -12,7 +12,7 @@ CONSTANTS
   PendingIsWouldBlock = TRUE
   MidResumes = TRUE
   FinalFlush = FALSE
-  FixNativeClose = FALSE
+  CloseFlushes = TRUE
   FixRustlsHsFlush = FALSE
 SPECIFICATION Spec
 INVARIANTS NoDeadlock
